@@ -17,7 +17,7 @@ from haiway.utils.queue import AsyncQueue  # noqa: E402
 ID = "C17"
 TECHNIQUE = "exhaustive operation-history enumeration on the real AsyncQueue under a hand-stepped loop, list reference model"
 RULE = (
-    "all operation sequences up to length L over {enqueue 1, enqueue 3, finish, finish(error), "
+    "all operation sequences up to length L over {enqueue 1, enqueue 3 (values repeat pairwise: equal neighbours), enqueue an element that is an exception instance, finish, finish(error), "
     "cancel queue, start receive (if none pending), cancel pending receive, run loop to quiescence, run one loop iteration}, then drain; "
     "non-trivial = the history has a consumer operation and a producer operation and at least one "
     "receive was suspended or cancelled"
@@ -35,7 +35,18 @@ class QErr(Exception):
     pass
 
 
-OPS = ["enq1", "enq3", "finish", "finish_err", "cancel", "recv", "cancel_recv", "run", "tick"]
+class ElementErr(Exception):
+    """an element that happens to be an exception instance (an error record in a results queue);
+    instances with the same number compare equal"""
+
+    def __eq__(self, other) -> bool:
+        return isinstance(other, ElementErr) and other.args == self.args
+
+    def __hash__(self) -> int:
+        return hash(("ElementErr", self.args))
+
+
+OPS = ["enq1", "enq3", "finish", "finish_err", "cancel", "recv", "cancel_recv", "run", "tick", "enq_exc"]
 
 
 def programs(tier: str):
@@ -89,7 +100,7 @@ def execute(program, ch: Chooser) -> Result:  # noqa: C901, PLR0912, PLR0915
             harvest()
 
         for _ in range(L):
-            enabled = ["enq1", "enq3", "finish", "finish_err", "cancel"]
+            enabled = ["enq1", "enq3", "finish", "finish_err", "cancel", "enq_exc"]
             if recv_task is None:
                 enabled.append("recv")
             elif not recv_task.done() and not recv_cancel_requested:
@@ -102,8 +113,10 @@ def execute(program, ch: Chooser) -> Result:  # noqa: C901, PLR0912, PLR0915
                 break
             op = enabled[c - 1]
             hist.append(op)
-            if op in ("enq1", "enq3"):
-                els = [nxt] if op == "enq1" else [nxt, nxt + 1, nxt + 2]
+            if op in ("enq1", "enq3", "enq_exc"):
+                # element values repeat pairwise (0, 0, 1, 1, ...): consecutive elements may compare
+                # equal; "enq_exc" enqueues an element that is itself an exception instance
+                els = [nxt // 2] if op == "enq1" else ([nxt // 2, (nxt + 1) // 2, (nxt + 2) // 2] if op == "enq3" else [ElementErr(nxt // 2)])
                 nxt += len(els)
                 try:
                     q.enqueue(*els)
@@ -194,7 +207,7 @@ def execute(program, ch: Chooser) -> Result:  # noqa: C901, PLR0912, PLR0915
                 viols.append(viol("finish-reason", "element-after-end", "end", r, history=hist))
         if ends < 2 and not any(v["clause"] == "termination" for v in viols):
             viols.append(viol("finish-reason", "not-sticky", ">=2 end markers", ends, history=hist))
-        producer = any(o in ("enq1", "enq3", "finish", "finish_err", "cancel") for o in hist)
+        producer = any(o in ("enq1", "enq3", "enq_exc", "finish", "finish_err", "cancel") for o in hist)
         consumer = any(o in ("recv",) for o in hist)
         nontrivial = producer and consumer and (suspended_recv > 0 or cancelled_recv > 0)
         outcome = f"{reason}/n={min(len(accepted), 3)}/cancelled={min(cancelled_recv, 2)}/susp={min(suspended_recv, 2)}"
